@@ -587,8 +587,8 @@ PROPS = {
         level_text='Theorems: Accept answers 101 iff the request is a valid WebSocket upgrade (declarative predicate) with an authorised origin; otherwise 426/405/400/403 and nothing negotiated; the accept value is '
                    'base64(SHA-1(key ++ GUID)) with Gallina SHA-1 and base64 (RFC vectors by vm_compute, base64 round trip proved); subprotocol = first server-preferred protocol offered. '
                    'Tie: status / hijack / response headers / negotiated options equal the model\'s on every generated request.',
-        level_note='decision procedure fully modelled; net/http request parsing not modelled.',
-        technique='Coq proofs over a Gallina model of accept.go (+ Gallina SHA-1/base64) + differential run through the real Accept',
+        level_note='Source tie by translation: C11_checks_are_source — the model answers what the chain of checks of verifyClientRequest, translated from accept.go on every run (Gen/AcceptCode.v: same checks, same order, same HTTP status), answers. decision procedure fully modelled; net/http request parsing not modelled.',
+        technique='Go->Gallina translation of verifyClientRequest + Coq proofs over a Gallina model of accept.go (+ Gallina SHA-1/base64) + differential run through the real Accept',
     ),
     'C12': dict(
         suites=['hs-accept'],
@@ -623,7 +623,7 @@ PROPS = {
         level_text='Theorems: the server accepts only the first acceptable offer (no duplicates, only honourable parameters), falls back otherwise, echoes server_no_context_takeover when asked, renders a response '
                    'with nothing but the agreed flags; the client accepts only what it can honour and follows the RESPONSE for the server direction; library-library agreement for all 3x3 modes; per-direction '
                    'compatibility with a foreign endpoint that applies the response; sender and receiver consult the same flag.',
-        level_note='data exchange correctness under the agreed parameters is C01-C03 (flate oracle).',
+        level_note='Source tie by translation: C14_mode_opts_is_source (CompressionMode.opts, Gen/FrameCode.v). data exchange correctness under the agreed parameters is C01-C03 (flate oracle).',
         technique='Coq proofs over a Gallina model of the negotiation (finite mode grid by computation, offers by induction) + differential runs through Accept/Dial + end-to-end exchanges',
     ),
     'C18': dict(
@@ -635,8 +635,8 @@ PROPS = {
         assumptions=['whether a timer fires during or between calls in a real run is a scheduling fact: the harness arranges it with sleeps', 'a zero-length read buffer is outside the property (the real Read spins): the model states 0 < size'],
         level_text='Theorems: the adapter\'s Reads return exactly the concatenation of the messages (any write sizes incl. empty, any positive read sizes), every data result non-empty; 1000/1001 read as sticky io.EOF; other close '
                    'codes pass through; wrong type fails and closes with 1003; a deadline firing while idle sets a flag that fails later calls until reset and leaves the connection untouched; firing during a call cancels the side\'s context.',
-        level_note='stream, EOF (both directions: normal / going-away close => io.EOF, and io.EOF ONLY then — C18_eof_only_after_normal_close, C18_fail_never_eof over any sequence of reads), type check and deadline theorems; the deadline theorems are about the flag/tryLock state machine, the effect of the cancelled context is C10.',
-        technique='Coq proofs (induction over read sizes with a fuel measure) + differential runs through NetConn on real connection pairs',
+        level_note='Source tie by translation: C18_eof_codes_are_source — a Read that meets the Close frame of the peer returns io.EOF exactly for the codes in the case list of netConn.read, translated from netconn.go on every run (Gen/ReadCode.v). stream, EOF (both directions: normal / going-away close => io.EOF, and io.EOF ONLY then — C18_eof_only_after_normal_close, C18_fail_never_eof over any sequence of reads), type check and deadline theorems; the deadline theorems are about the flag/tryLock state machine, the effect of the cancelled context is C10.',
+        technique='Go->Gallina translation of the EOF case list of netConn.read + Coq proofs (induction over read sizes with a fuel measure) + differential runs through NetConn on real connection pairs',
     ),
     'C19': dict(
         suites=['wsjson'],
@@ -716,8 +716,8 @@ PROPS = {
         level_text='Theorems (every state / input): each header-level violation of the property\'s list is rejected by readLoop before any data is handed out; top-bit lengths '
                    'and malformed Close payloads fail; header decode∘encode = id. C03_valid / C03_valid_compressed: for every VALID frame stream (any fragmentation, control frames anywhere, both roles, compressed messages with any inflater) and any read-buffer sizes the Reader model '
                    'delivers exactly the messages the specification assigns to the stream and answers its pings; C03_first_violation: after the first header-level violation nothing more is delivered or read and Close 1002 is written. Tie: model = library on every generated stream.',
-        level_note='stream-level theorems: C03_valid (valid uncompressed streams), C03_valid_compressed (valid streams with compressed messages, for EVERY inflater: the reader feeds it payload + tail with the RFC 7692 dictionary and delivers its output), C03_first_violation / _mid (valid prefix, then a header-level violation at a message boundary or inside a fragmented message, then anything: exactly the valid messages are delivered, the read fails, Close 1002 is written, nothing behind the header is read). C03_continuation_without_message / C03_data_frame_inside_message are the two sequence violations at stream level. Corrupt DEFLATE data: the reader hands out what the inflater produced and fails (the companion of C03_valid_compressed, reader_zstream_obs) + correspondence.',
-        technique='Coq proof (case analysis over the header / control-frame paths) + differential run of the extracted Reader model vs the library over scripted raw peers',
+        level_note='Source tie by translation: C03_violation_list_is_source (the header-level violation list = the translated checks of readLoop, a reserved opcode, the translated checks of handleControl), C03_refusal_with_close_is_source / C03_silent_refusal_is_source (which refusals send Close 1002 first), C03_length_decoding_is_source, C03_negative_length_is_source, C03_rsv1_is_source, C03_model_literals_are_source (Gen/FrameCode.v, Gen/ReadCode.v, regenerated from frame.go / read.go on every run). stream-level theorems: C03_valid (valid uncompressed streams), C03_valid_compressed (valid streams with compressed messages, for EVERY inflater: the reader feeds it payload + tail with the RFC 7692 dictionary and delivers its output), C03_first_violation / _mid (valid prefix, then a header-level violation at a message boundary or inside a fragmented message, then anything: exactly the valid messages are delivered, the read fails, Close 1002 is written, nothing behind the header is read). C03_continuation_without_message / C03_data_frame_inside_message are the two sequence violations at stream level. Corrupt DEFLATE data: the reader hands out what the inflater produced and fails (the companion of C03_valid_compressed, reader_zstream_obs) + correspondence.',
+        technique='Go->Gallina translation of the checks of readFrameHeader / readLoop / handleControl / readRSV1Illegal + Coq proof (case analysis over the header / control-frame paths) + differential run of the extracted Reader model vs the library over scripted raw peers',
     ),
     'C04': dict(
         suites=['wire-in'], rule=WIREIN_RULE, trusted=COMMON_TRUSTED + READER_TRUST + [FLATE_ASSUME],
@@ -763,8 +763,8 @@ PROPS = {
         level_text='Theorem C02_wf: for every program, role, option set, threshold, key supply and every compressor behaviour the Writer model\'s wire bytes parse back '
                    '(specification parser) to exactly the frames written and satisfy every conformance clause of the property. Tie: the library\'s recorded bytes equal the '
                    'model\'s bytes case by case, and the extracted specification decoder (+ inflate) is applied to the library\'s bytes as judge.',
-        level_note='Writer model hand-written from write.go/compress.go/frame.go; compressor is an oracle (C02_decodes states what an independent decoder reassembles for every compressor behaviour; inflation to the plaintext is checked by the judge with Go\'s inflater).',
-        technique='Coq proof (invariant over operation sequences; decode∘encode) + differential run of the extracted model vs the library through Dial/Accept with a scripted raw peer',
+        level_note='Source tie by translation: C02_length_field_is_source / C02_length_bytes_is_source — the 7-bit length field and the extended-length bytes of the model are what the two switches of writeFrameHeader, translated from frame.go on every run (Gen/FrameCode.v), compute. Writer model hand-written from write.go/compress.go/frame.go; compressor is an oracle (C02_decodes states what an independent decoder reassembles for every compressor behaviour; inflation to the plaintext is checked by the judge with Go\'s inflater).',
+        technique='Go->Gallina translation of the length switches of writeFrameHeader + Coq proof (invariant over operation sequences; decode∘encode) + differential run of the extracted model vs the library through Dial/Accept with a scripted raw peer',
     ),
     'C17': dict(
         suites=['mask'],
